@@ -296,7 +296,14 @@ fn valid_db(sch: &Schema, d: &Db) -> Option<bool> {
 }
 fn wsel(w: &Option<Expr>, r: &[Val]) -> Option<bool> { match w { None => Some(true), Some(e) => sem3(e, r).map(|t| t == Tv::T) } }
 fn fits(n: usize, r: &[Val]) -> bool { r.len() == n && r.iter().all(|v| matches!(v, Val::Null | Val::Int(_))) }
-fn fk_std(sch: &Schema) -> bool { sch.c.iter().all(|c| match &c.fk { Some(f) => sch.p.get(f.col).map(|p| p.key != 0).unwrap_or(false), None => true }) }
+fn fk_std(sch: &Schema, p: &[Vec<Val>]) -> bool {
+    sch.c.iter().all(|c| match &c.fk {
+        Some(f) => sch.p.get(f.col).map(|pc| pc.key != 0 || {
+            let mut seen: Vec<&Val> = vec![];
+            p.iter().all(|r| r[f.col].is_null() || { let dup = seen.contains(&&r[f.col]); seen.push(&r[f.col]); !dup })
+        }).unwrap_or(false),
+        None => true })
+}
 fn fk_wf(sch: &Schema) -> bool { sch.c.iter().all(|c| match &c.fk { Some(f) => f.col < sch.p.len(), None => true }) && sch.p.iter().all(|c| c.fk.is_none()) }
 /// None = the reference does not say; Some((accepted, db after))
 fn spec_step(sch: &Schema, d: &Db, s: &Stmt) -> Option<(bool, Db)> {
@@ -312,12 +319,12 @@ fn spec_step(sch: &Schema, d: &Db, s: &Stmt) -> Option<(bool, Db)> {
             let k = sch.cols(*t).len();
             if sets.is_empty() || sets.iter().any(|(c, v)| *c >= k || !matches!(v, Val::Null | Val::Int(_))) { return None; }
             for (i, (c, _)) in sets.iter().enumerate() { if sets[..i].iter().any(|(c2, _)| c2 == c) { return None; } }
-            if *t == Tid::P && !fk_std(sch) { return None; }
+            if *t == Tid::P && !fk_std(sch, &d.0) { return None; }
             let tab = match t { Tid::P => &mut n.0, Tid::C => &mut n.1 };
             for r in tab.iter_mut() { if wsel(w, r)? { for (c, v) in sets { r[*c] = v.clone(); } } }
         }
         Stmt::Del(t, w) => {
-            if *t == Tid::P && !fk_std(sch) { return None; }
+            if *t == Tid::P && !fk_std(sch, &d.0) { return None; }
             let tab = match t { Tid::P => &d.0, Tid::C => &d.1 };
             let mut gone = vec![]; let mut keep = vec![];
             for r in tab { if wsel(w, r)? { gone.push(r.clone()); } else { keep.push(r.clone()); } }
